@@ -209,9 +209,29 @@ class FuncExporter:
             if fn.__name__ in MACHINE_CTORS and set(kwn) <= {'rm', 'overflow', 'enable_neg_zero'}:
                 return {'k': 'CtxCall', 'cls': fn.__name__, 'a': a, 'kwn': kwn, 'kwv': kwv, 'id': nid}
             raise Unsupported(f'context constructor {fn.__name__}')
+        from fpy2.primitive import Primitive
+        if isinstance(fn, Primitive):
+            pname = getattr(fn.func, '__name__', '')
+            if pname in ('max_p', 'min_n', 'modf', 'split', 'frexp') and not e.kwargs:
+                a = [self.expr(x, pre, lift_ok) for x in e.args]
+                return {'k': 'Prim', 'fn': pname, 'a': a, 'id': nid}
+            raise Unsupported(f'primitive {pname}')
         if isinstance(fn, Function):
             if e.kwargs:
                 raise Unsupported('kwargs')
+            # a context-free helper whose body is a single `return <expr>` over its parameters, applied to
+            # plain variables / literals, is an expression: substitute (no evaluation-order question arises)
+            body = fn.ast.body.stmts
+            if (not top and len(body) == 1 and isinstance(body[0], A.ReturnStmt) and fn.ast.ctx is None
+                    and all(isinstance(x, (A.Var, A.RationalVal, A.BoolVal)) for x in e.args)
+                    and not _has_user_call(body[0].expr) and len(e.args) == len(fn.ast.args)):
+                sub = FuncExporter(self.prog, fn)
+                sub.local_names = {str(a.name) for a in fn.ast.args}
+                sub.free = {}
+                ex = sub.expr(body[0].expr, [], False)
+                if not sub.free:
+                    binds = {str(a.name): self.expr(x, pre, lift_ok) for a, x in zip(fn.ast.args, e.args)}
+                    return _subst(ex, binds)
             name = self.prog.add_function(fn)
             a = self.args_in_order(e.args, pre, lift_ok)
             node = {'k': 'Call', 'fn': name, 'a': a, 'id': nid}
@@ -313,6 +333,16 @@ def _slots(node):
             if s not in seen and s not in ('loc', 'fn', 'func', 'meta'):
                 seen.append(s)
     return seen
+
+
+def _subst(ex, binds):
+    if isinstance(ex, dict):
+        if ex.get('k') == 'Var' and ex.get('n') in binds:
+            return binds[ex['n']]
+        return {k: _subst(v, binds) for k, v in ex.items()}
+    if isinstance(ex, list):
+        return [_subst(v, binds) for v in ex]
+    return ex
 
 
 def _has_user_call(e) -> bool:
